@@ -214,7 +214,7 @@ class TreeCheck:
             k = self.known_hang_class(c)
             if k is not None:
                 capped[k] = capped.get(k, 0) + 1
-                if capped[k] > (2 if tier == "quick" else 6):
+                if capped[k] > self.hang_class_cap(k, tier):
                     continue
             kept.append(c)
         cov["capped_known_hang_class_cases"] = {k: v for k, v in capped.items()}
@@ -246,12 +246,21 @@ class TreeCheck:
 
     shuffle_derived = False
 
+    def hang_class_cap(self, k, tier):
+        if k == "F3":
+            return 8 if tier == "quick" else 40
+        return 2 if tier == "quick" else 6
+
     def known_hang_class(self, case):
         """Plans that are known to end in an open hang finding (40 s each): a worker
         death placed inside the result-queue put (F10)."""
         for r in case["plan"].get("rules", []):
             if r.get("role") == "worker" and r.get("action", [""])[0] in ("kill", "exit", "cexit") and r.get("qual") in ("SemLock.__exit__", "SimpleQueue.put"):
                 return "F10"
+        m = case.get("meta", {})
+        t = (m.get("kw") or {}).get("timeout")
+        if (m.get("ending") == "del" or m.get("how") == "del") and t is not None and t <= 0.2 and case["plan"].get("rules"):
+            return "F3"  # executor collected + all workers idle out with pending work (open finding F3): may stall for 40 s
         return None
 
     def budget(self, tier):
